@@ -40,6 +40,11 @@ func c19Expected(data []byte) (exp mdSummary, consumed []int64) {
 		res := loadWith(l, s)
 		consumed = append(consumed, s.Pulled)
 		sum := summarise(res)
+		// the same loader on a *bytes.Reader: whatever the kind of reader, the outcome is the input's
+		if alt := summarise(loadWith(l, bytes.NewReader(data))); !alt.same(sum) && alt.Panic == "" && sum.Panic == "" {
+			sum.sourceDependent = fmt.Sprintf("%s.Load gives %s from a plain io.Reader but %s from a *bytes.Reader", l, sumStr(sum), sumStr(alt))
+			return sum, consumed
+		}
 		if sum.Panic != "" {
 			return sum, consumed
 		}
@@ -54,6 +59,9 @@ func c19Check(data []byte, schedule string, seed uint64, deferred bool) (kind, m
 	exp, consumed := c19Expected(data)
 	if exp.Panic != "" {
 		return "", "a specific loader panicked (C09's business)", false
+	}
+	if exp.sourceDependent != "" {
+		return "source-dependent", exp.sourceDependent + " - there is no single 'specific loader result' for auto-detection to equal", true
 	}
 	var rd io.Reader
 	if strings.HasPrefix(schedule, "seeker@") {
